@@ -104,3 +104,7 @@ mod tests {
         }
     }
 }
+
+#[cfg(all(test, feature = "pendulum_project_ntpd_rs_verif"))]
+#[path = "../../../verif/harness/ntp_proto/cookiestash.rs"]
+mod verif_cookiestash;
